@@ -21,7 +21,7 @@ class Timeout(BaseException):
     pass
 
 
-def run_limited(fn, arg, cpu_budget_s=4.0, mem_bytes=2 << 30, wall_factor=25):
+def run_limited(fn, arg, cpu_budget_s=4.0, mem_bytes=1 << 30, wall_factor=25):
     """fn(arg, probe) -> JSON-able result; probe(obj) registers the live SVG for growth sampling.
     Returns dict(verdict=..., result=..., trace=[...], cpu_s=...)"""
     r, w = os.pipe()
